@@ -72,14 +72,17 @@ class Check(PropertyCheck):
                   "parseV4): utf8_dec_enc, name_dec_enc (for every Idna, no law), ip4_dec_enc, ip4_rejects_marker, transcribed_codec_laws(_A) and "
                   "dns_view_roundtrip_transcribed(_A): the guarded DNS-view round trip with YAML, Python's idna codec for ACE labels (no law needed) "
                   "and the AAAA/HTTPS part as the only parameters; type/opcode/rcode/class_text_clean: to_str of every number is free of control characters "
-                  "(three of the `internal` texts C49's dumper_output_clean takes as hypothesis). The property sentence is checked "
+                  "(three of the `internal` texts C49's dumper_output_clean takes as hypothesis; dumper_output_clean_sym restates that theorem without them). "
+                  "AAAA: str(IPv6Address)/IPv6Address(text) transcribed (Model/C50_V6.lean, reader = C22.parseV6): ip6_dec_enc, ip6_rejects_marker, "
+                  "transcribed_codec_laws_6 and dns_view_roundtrip_transcribed_6 - the guarded DNS-view round trip with every text codec (A, AAAA, NS, CNAME, PTR, "
+                  "TXT) a transcription; parameters left: YAML, Python's idna codec for ACE labels (law-free), the HTTPS part (law proved in https_reencode_exact). The property sentence is checked "
                   "directly as an oracle: every registered view x random and structured bodies x message kinds: no exception, "
                   "clean text; DNS: reencode_message(prettify_message(m)) decoded by mitmproxy.dns equals the original.")
     level_note = ("partial: the DNS round trip is proved only under the guard (reserved = 0, every NS/CNAME/PTR/TXT rdata decodable, "
                   "no U+0085 in the YAML, YAML load o dump identity) — the excluded classes are genuine defects recorded as F-C50a/b/c/d. Assumed (parameters "
-                  "with laws, validated by the tie, not proved): ruamel YAML dump/load and the IPv6 text codec (str(IPv6Address) / IPv6Address(text)) "
-                  "are partial inverses; the UTF-8 (TXT), domain-name (NS/CNAME/PTR, Python's idna codec for ACE labels left as a law-free parameter) "
-                  "and IPv4 (A) codecs are no longer assumed: transcribed, proved and tied by the driver ops utf8/utf8e/name/ip4/ip4e (the HTTPS-record codec is no longer assumed: transcribed and proved up to the domain-name codec, "
+                  "with laws, validated by the tie, not proved): ruamel YAML dump/load (the only library law left); "
+                  "the UTF-8 (TXT), domain-name (NS/CNAME/PTR, Python's idna codec for ACE labels left as a law-free parameter), IPv4 (A) and IPv6 (AAAA) "
+                  "codecs are not assumed: transcribed, proved and tied by the driver ops utf8/utf8e/name/ip4/ip4e/ip6/ip6e (the HTTPS-record codec is no longer assumed: transcribed and proved up to the domain-name codec, "
                   "tied by the `https` driver op on structured, mutated and truncated rdata with the ASCII non-ACE name codec); Rust and Python view bodies are black boxes (arbitrary functions in the theorem; their "
                   "exceptions are modelled as the `raised` input). Decoding for the oracle uses mitmproxy.dns itself; inputs that "
                   "mitmproxy.dns does not reproduce by pack/unpack alone (C25/C26 territory) are skipped.")
@@ -323,11 +326,26 @@ class Check(PropertyCheck):
         for t in ("1.2.3.4", "01.2.3.4", "1.2.3", "1.2.3.4.5", "256.1.1.1", "1.2.3.4/8", "", "0x01020304 (invalid A data)", "1.2.3.\u0664", "1.2.3.4 ",
                   "::1", "1..2.3", "1.2.3.-4", "0.0.0.0", "255.255.255.255", "1.2.3.0004", "\u0130.2.3.4", "1.2.3.4\n"):
             yield {"kind": "ip4e", "s_hex": s2h(t)}
+        for d in (bytes(16), bytes(15) + b"\x01", b"\xff" * 16, bytes(10) + b"\xff\xff\x01\x02\x03\x04", bytes(12) + b"\x01\x02\x03\x04", bytes.fromhex("20010db8000000000001000000000001"),
+                  bytes.fromhex("20010db8000100000000000000000001"), bytes.fromhex("00010000000000010000000000000001"), bytes.fromhex("fe800000000000000000000000000000"),
+                  bytes.fromhex("00000000000000000000000000010000"), bytes.fromhex("0001000200030004000500060007000a"), bytes(15), bytes(17), b""):
+            yield {"kind": "ip6", "data_hex": hx(d)}
+        for t in ("::", "::1", "1::", "::ffff:1.2.3.4", "fe80::1%eth0", "fe80::1%", "1:2:3:4:5:6:7:8", "1:2:3:4:5:6:7", "1:2:3:4:5:6:7:8:9", "::1::", "1:::2", "g::1", "12345::",
+                  "::1.2.3", "1.2.3.4", "", ":", ":::", "0:0:0:0:0:0:0:0", "::0:0", "2001:DB8::A", "[::1]", "::1/128", "\u0661::", "fe80::1%a%b", "::ffff:1.2.3.4%x", "1:2:3:4:5:6:1.2.3.4", "::%\x1b"):
+            yield {"kind": "ip6e", "s_hex": s2h(t)}
         for d in (b"", b"\xff", b"h\xc3\xa9", b"\xed\xb2\x80", b"\xf0\x9f\x98\x80", b"\xc0\x80", b"\xe0\x80\x80", b"\xf4\x90\x80\x80", b"\xc3", b"a\xe2\x82"):
             yield {"kind": "utf8", "data_hex": hx(d)}
         while True:
             r = rng.random()
-            if r < 0.012:
+            if r < 0.012 and rng.chance(0.5):
+                if rng.chance(0.6):
+                    ws = [rng.pick([0, 0, 0, 1, 0xffff, 0x0db8, rng.getrandbits(16)]) for _ in range(8)]
+                    d = b"".join(w.to_bytes(2, "big") for w in ws)
+                    yield {"kind": "ip6", "data_hex": hx(d if rng.chance(0.95) else d[:rng.randrange(16)])}
+                else:
+                    parts = [rng.pick(["0", "1", "ffff", "db8", "", "00a", "12345", "g", "1.2.3.4", "A"]) for _ in range(rng.randint(1, 9))]
+                    yield {"kind": "ip6e", "s_hex": s2h(":".join(parts) + rng.pick(["", "", "", "%eth0", "%", "::"]))}
+            elif r < 0.012:
                 if rng.chance(0.5): yield {"kind": "ip4", "data_hex": hx(rng.bytes_(rng.pick([4, 4, 4, 3, 5, 0, 16])))}
                 else:
                     t = ".".join(rng.pick(["0", "1", "9", "10", "99", "100", "255", "256", "00", "", "1e", "+1", " 1", "１"]) for _ in range(rng.pick([4, 4, 4, 3, 5])))
@@ -544,6 +562,17 @@ class Check(PropertyCheck):
             try: back = hx(IPv4Address(t).packed)
             except ValueError: back = "raise"
             return {"tie": f"{cps(t)} {back}"}
+        if kind == "ip6":
+            from ipaddress import IPv6Address
+            try: t = str(IPv6Address(unhx(case["data_hex"])))
+            except ValueError: return {"tie": "none"}
+            try: back = hx(IPv6Address(t).packed)
+            except ValueError: back = "raise"
+            return {"tie": f"{cps(t)} {back}"}
+        if kind == "ip6e":
+            from ipaddress import IPv6Address
+            try: return {"tie": hx(IPv6Address(h2s(case["s_hex"])).packed)}
+            except ValueError: return {"tie": "raise"}
         if kind == "ip4e":
             from ipaddress import IPv4Address
             try: return {"tie": hx(IPv4Address(h2s(case["s_hex"])).packed)}
@@ -758,7 +787,7 @@ class Check(PropertyCheck):
         kind = case["kind"]
         if kind == "table":
             return []        # a raw return breaks `prettify_returns_escaped`; the failing rendering itself is what gets reported
-        if kind in ("utf8", "utf8e", "name", "ip4", "ip4e"):
+        if kind in ("utf8", "utf8e", "name", "ip4", "ip4e", "ip6", "ip6e"):
             return []        # tie only: transcriptions of the TXT and name codecs against the real functions
         if kind == "https":
             # record-level reading of "re-encoding ... yields ... the same ... records": rdata the HTTPS decoder accepts must be
@@ -810,8 +839,8 @@ class Check(PropertyCheck):
         if kind == "table": return ["table"]
         if kind == "sym": return [f"sym {nm} {case['n']}" for nm in ("type", "class", "op", "rcode")]
         if kind == "https": return [f"https {case['data_hex']}"]
-        if kind in ("utf8", "name", "ip4"): return [f"{kind} {case['data_hex']}"]
-        if kind in ("utf8e", "ip4e"): return [f"{kind} {cps(h2s(case['s_hex']))}"]
+        if kind in ("utf8", "name", "ip4", "ip6"): return [f"{kind} {case['data_hex']}"]
+        if kind in ("utf8e", "ip4e", "ip6e"): return [f"{kind} {cps(h2s(case['s_hex']))}"]
         if kind == "render":
             if obs.get("exc") or "parts" not in obs: return None
             p = obs["parts"]
@@ -831,7 +860,7 @@ class Check(PropertyCheck):
         if kind == "table": return [obs["table"]]
         if kind == "sym": return [f"{obs[nm][0]} {obs[nm][1]}" for nm in ("type", "class", "op", "rcode")]
         if kind == "https": return [obs["https"]]
-        if kind in ("utf8", "utf8e", "name", "ip4", "ip4e"): return [obs["tie"]]
+        if kind in ("utf8", "utf8e", "name", "ip4", "ip4e", "ip6", "ip6e"): return [obs["tie"]]
         if kind == "render":
             p = obs["parts"]
             if p["missing"] or not (p["raised"] and not p["auto"]): return ["full " + obs["text"]]
@@ -846,14 +875,14 @@ class Check(PropertyCheck):
             return out
 
     def classify(self, case, obs):
-        if case["kind"] in ("table", "sym", "https", "utf8", "utf8e", "name", "ip4", "ip4e"): return json.dumps(case, sort_keys=True)
+        if case["kind"] in ("table", "sym", "https", "utf8", "utf8e", "name", "ip4", "ip4e", "ip6", "ip6e"): return json.dumps(case, sort_keys=True)
         if case["kind"] == "render": return json.dumps(case, sort_keys=True) if case["data_hex"] != "-" else None
         return json.dumps(case, sort_keys=True)
 
     def branches(self, case, obs):
         k = case["kind"]
         if k in ("table", "sym"): return [k]
-        if k in ("utf8", "utf8e", "name", "ip4", "ip4e"): return ["codec-tie:" + k, f"codec-tie:{k}:" + ("none" if obs["tie"] in ("none", "raise") else "ok")]
+        if k in ("utf8", "utf8e", "name", "ip4", "ip4e", "ip6", "ip6e"): return ["codec-tie:" + k, f"codec-tie:{k}:" + ("none" if obs["tie"] in ("none", "raise") else "ok")]
         if k == "https": return ["https", "https:" + obs["https"].split("=")[0].split(" ")[0]]
         if k == "render":
             out = ["render", "msg:" + case["msg"], "view:" + (case["view"] if case["view"] in self._views() else "<unknown>")]
